@@ -614,11 +614,20 @@ func runC04(c *Ctx) {
 			continue
 		}
 		n := 0
-		for _, in := range instrsIn(outer, isCallToFn(inner)) {
+		for _, h := range p.deepFind(outer, isCallToFn(inner), 2) {
+			in := h.In
 			n++
-			nodes := termOf(in.(ssa.CallInstruction).Common().Args[2])
-			ok := nodes.contains(func(x *Term) bool { return x.isCallTo(subsetFn) })
-			c.Check(ok, "O6", "PROV", funcKey(outer)+": "+pr.inner+" receives a node set of SubsetNodesFn", instrPos(in), trunc(nodes.String(), 100), pr.inner+" is handed "+trunc(nodes.String(), 120)+" instead of an element of SubsetNodesFn's result: the topology narrowing is bypassed")
+			// the node set handed on — through a callback parameter if the loop was moved into a helper
+			ok := false
+			desc := ""
+			for _, nodes := range p.originTerms(in.(ssa.CallInstruction).Common().Args[2], 2) {
+				desc = trunc(nodes.String(), 100)
+				ok = nodes.contains(func(x *Term) bool { return x.isCallTo(subsetFn) })
+				if !ok {
+					break
+				}
+			}
+			c.Check(ok, "O6", "PROV", funcKey(outer)+": "+pr.inner+" receives a node set of SubsetNodesFn", instrPos(in), desc, pr.inner+" is handed "+desc+" instead of an element of SubsetNodesFn's result: the topology narrowing is bypassed")
 		}
 		c.Floor("O6", "PROV "+pr.inner+" hand-offs", n, 1)
 		for _, in := range instrsIn(outer, isCallToFn(subsetFn)) {
